@@ -295,6 +295,21 @@ func universes(thorough bool) []*universe {
 		{"single4-ip-dot0", mkSvc(lbIP("10.0.3.0"))}, {"require", mkSvc(families(v1.IPFamilyPolicyRequireDualStack, "192.168.9.1", "fd00::1"))},
 	}, nil))
 
+	// three pools pinned to one namespace (a list with spare capacity in the loaded configuration) next to a pool selected by
+	// service labels whose name sorts between them: the candidate lists the allocator builds must not write into the
+	// configuration they come from
+	pin := func(name string, cidr string, prio int) metallbv1beta1.IPAddressPool {
+		return mkPool(name, []string{cidr}, func(p *metallbv1beta1.IPAddressPool) {
+			p.Spec.AllocateTo = &metallbv1beta1.ServiceAllocation{Priority: prio, Namespaces: []string{"ns1"}}
+		})
+	}
+	us = append(us, mkUniverse("pinned3", ns12[:1], [][]metallbv1beta1.IPAddressPool{{
+		pin("pool-b", "10.0.2.0/32", 1), pin("pool-c", "10.0.3.0/32", 2), pin("pool-d", "10.0.4.0/32", 3),
+		mkPool("pool-a-web", []string{"10.0.1.0/32"}, func(p *metallbv1beta1.IPAddressPool) {
+			p.Spec.AllocateTo = &metallbv1beta1.ServiceAllocation{Priority: 4, ServiceSelectors: []metav1.LabelSelector{lsel("app", "web")}}
+		}),
+	}}, []slotT{{"ns1", "s1"}, {"ns1", "s2"}}, []namedVariant{{"auto", mkSvc()}, {"auto-web", mkSvc(svcLabels(map[string]string{"app": "web"}))}, {"p443-k1", mkSvc(ports(443), share("k1"))}}, nil))
+
 	// ---- U-reconf: pool reconfiguration ----
 	reLayouts := [][]metallbv1beta1.IPAddressPool{
 		{mkPool("a", []string{"10.0.0.0/30"}, nil)},
